@@ -767,6 +767,8 @@ class J1939_22:
         pgn = ParameterGroupNumber(0, (ParameterGroupNumber.PGN.FD_TP_DT>>8) & 0xFF, dest_address)
         mid = MessageId(priority=7, parameter_group_number=pgn.value, source_address=src_address)
 
+        # work on a copy: the segment stays in the send buffer and may be requested again
+        data = list(data)
         data.insert(0, (Dtfi & 0xF) | ((session_num & 0xF) << 4))
         data.insert(1,  segment_num & 0xFF)
         data.insert(2, (segment_num >> 8) & 0xFF)
